@@ -11,10 +11,21 @@ prop("C09", "exploration",
      "unreliable reads are whole written messages (never empty, fragments or merges), ids handed to concurrent local creators "
      "are distinct per class and have the side's parity, each incarnation is offered by Accept at most once with its opener's type "
      "and reliability, and on a loss-free network every opened reliable incarnation is offered. Non-trivial = >=2 concurrent workers "
-     "or identifier reuse; distinct by case hash.",
+     "or identifier reuse; distinct by case hash. Second family BURST OF OPENS AGAINST A SLOW ACCEPTOR (TestVerifC09Burst): each side "
+     "opens 0-140 reliable and 0-140 unreliable tubes at once (a side owns 128 identifiers per class; one-sided in a quarter of the cases), "
+     "spread over 1-8 concurrent creators, plus an optional later wave of up to 120 tubes where the peer opens at most 128 in total; each "
+     "side's application starts calling Accept after 0-3 s and pauses 0-10 ms between Accept calls; faithful network (delay 1-50 ms, "
+     "nothing lost, duplicated or reordered), no tube is closed before the verdict, so no identifier is ever reused (the open "
+     "findings of the first family cannot occur; signatures carry :burst-of-opens). Each opener writes one tagged stream / message. "
+     "Oracle: identifiers handed to the creators are distinct per class and have the side's parity; Accept never returns a tube "
+     "nobody opened, never the same tube twice, always with the opener's type and class; every tube (both classes) whose open request "
+     "reached the accepting side (network log) is offered within start-of-accepting + one gap per tube + 30 virtual seconds; what is "
+     "read on an accepted tube is (a prefix of) what its opener wrote on that tube. Non-trivial = >= 2 tubes opened.",
      ["muxer data timeout 0", "empty unreliable messages are never written, so any empty read is foreign",
-      "'tube never offered' is only judged for reliable tubes on a loss-free network"],
-     [dict(name="tubes", pkg="tubes", run="^TestVerifC09Tubes$", shards=dict(quick=16, thorough=16), thorough_scale=40, timeout=dict(quick=900, thorough=7200))],
+      "'tube never offered' is only judged for reliable tubes on a loss-free network (first family); in the burst family, where the network is faithful and no identifier is reused, for both classes",
+      "burst family: a side opens tubes later than t=0 only if its peer opens at most 128 tubes (the unchanged receiver waits, holding the muxer lock, while the accept queue is full; a Create call waiting for that lock would stop the bubble's virtual clock)"],
+     [dict(name="tubes", pkg="tubes", run="^TestVerifC09Tubes$", shards=dict(quick=16, thorough=16), thorough_scale=40, timeout=dict(quick=900, thorough=7200)),
+      dict(name="burst", pkg="tubes", run="^TestVerifC09Burst$", shards=dict(quick=16, thorough=16), thorough_scale=20, timeout=dict(quick=900, thorough=7200))],
      text="Generated multi-tube open/close/reopen scenarios run on two real muxers under a virtual clock; payloads are keyed to "
           "their incarnation so any cross-delivery, fragment, merge or duplicate offer is visible from the bytes alone.",
      note="trusts testing/synctest, memconn, rapid",
